@@ -600,11 +600,12 @@ pub open spec fn read_copies_accepted(rs: ReadOnlyCache, links: Map<PathV, Inode
     ft = u.under_contract(u.item('src/stack.rs', ['fn finalize_tempfile']), ['C03', 'C19', 'C18', 'C02', 'C15'])
     ft.air = r'stack::finalize_tempfile(::(fix_tempfile_permissions|close))?'
     ft.add_param(W)
-    ft.contract(requires=[('', 'old(w).inv() && old(w).inodes.contains_key(tempfile.ino())')],
+    NOT_RO = ('C15:the-file-being-finalized-is-not-a-key-named-file-of-a-read-only-cache', 'old(w).not_ro_linked(%s.ino())')
+    ft.contract(requires=[('', 'old(w).inv() && old(w).inodes.contains_key(tempfile.ino())'), (NOT_RO[0], NOT_RO[1] % 'tempfile')],
                 ensures=[(l, t % dict(t='tempfile', sync='sync', noworld='false')) for (l, t) in FIN_ENS])
     fx = ft.sub(['fn fix_tempfile_permissions'])
     fx.add_param(W)
-    fx.contract(requires=[('', 'old(w).inv() && old(w).inodes.contains_key(file.ino())')],
+    fx.contract(requires=[('', 'old(w).inv() && old(w).inodes.contains_key(file.ino())'), (NOT_RO[0], NOT_RO[1] % 'file')],
                 ensures=[INV, ('', 'final(w).kept(*old(w)) && final(w).listed == old(w).listed && final(w).published == old(w).published && final(w).now == old(w).now'),
                          ('C19:mode-is-forced-to-0444-whatever-the-umask',
                           'r.is_ok() ==> final(w).only_inode_changed(*old(w), file.ino(), Inode { writable: false, mode: 0o444, ..old(w).inodes[file.ino()] })'),
@@ -628,7 +629,7 @@ pub open spec fn read_copies_accepted(rs: ReadOnlyCache, links: Map<PathV, Inode
     cf.drop_attrs()
     cf.air = 'stack::Cache::finalize_tempfile'
     cf.add_param(W)
-    cf.contract(requires=[('', 'old(w).inv() && old(w).inodes.contains_key(file.ino())')],
+    cf.contract(requires=[('', 'old(w).inv() && old(w).inodes.contains_key(file.ino())'), (NOT_RO[0], NOT_RO[1] % 'file')],
                 ensures=[(l, t % dict(t='file', sync='self.syncs()', noworld='false')) for (l, t) in FIN_ENS])
     ms = u.under_contract(im.sub(['fn maybe_sync_path']), ['C03', 'C18', 'C15', 'C05'])
     ms.air = 'stack::Cache::maybe_sync_path'
@@ -690,7 +691,7 @@ pub open spec fn read_copies_accepted(rs: ReadOnlyCache, links: Map<PathV, Inode
                    ('C01:caller-hands-in-a-private-finished-file-supplied-for-this-key',
                     'valid_key(str_bytes(key.name)) ==> old(w).value_ok(%s, str_bytes(key.name), false)' % VAL)]
             if variant == 'temp':
-                req.append(('', 'old(w).files.contains_key(value.pathv()) && old(w).files[value.pathv()] == value.ino() && old(w).inodes.contains_key(value.ino())'))
+                req.append(('', 'old(w).files.contains_key(value.pathv()) && old(w).files[value.pathv()] == value.ino() && old(w).inodes.contains_key(value.ino()) && old(w).not_ro_linked(value.ino())'))
             ens = [
                 INV, ('', 'final(w).kept_nc(*old(w))'),
                 ('C13:without-a-write-cache-nothing-is-published', '%s.writer().is_none() ==> r.is_err() && final(w).published == old(w).published && final(w).dirs == old(w).dirs' % this),
